@@ -623,4 +623,384 @@ theorem lexOne_wf (t : Tk) (rest : List Char) (hw : t.WF) (hs : t.stops rest = t
         rw [List.cons_append, lexOne_wordlike c _ (by simp [hcl]), ← List.cons_append, hn,
           if_pos hi, take_append_length, es]
 
+/-! ### facts about `WF` and `stops` -/
+
+theorem literals_heads : literals.all (fun s => match s.toList with
+    | c :: _ => !isWs c
+    | [] => false) = true := by decide +kernel
+
+/-- the text of a well-formed token is non-empty and does not start with white space -/
+theorem wf_text_head {t : Tk} (hw : t.WF) : ∃ c r, t.text.toList = c :: r ∧ isWs c = false := by
+  cases t with
+  | kw s =>
+    have hm : s ∈ literals := by simpa [Tk.WF, Tk.wf] using hw
+    have := List.all_eq_true.mp literals_heads s hm
+    simp only [Tk.text]
+    cases hl : s.toList with
+    | nil => rw [hl] at this; simp at this
+    | cons c r => rw [hl] at this; exact ⟨c, r, rfl, by simpa using this⟩
+  | filepath s =>
+    simp only [Tk.WF, Tk.wf] at hw
+    simp only [Tk.text]
+    cases hl : s.toList with
+    | nil => rw [hl] at hw; simp [isPathLit] at hw
+    | cons c r =>
+      rw [hl] at hw
+      simp only [isPathLit, Bool.and_eq_true, beq_iff_eq] at hw
+      obtain ⟨⟨rfl, -⟩, -⟩ := hw
+      exact ⟨_, r, rfl, by decide⟩
+  | target s =>
+    simp only [Tk.WF, Tk.wf] at hw
+    simp only [Tk.text]
+    cases hl : s.toList with
+    | nil => rw [hl] at hw; simp [isTargetLit] at hw
+    | cons c r =>
+      rw [hl] at hw
+      simp only [isTargetLit, Bool.and_eq_true] at hw
+      refine ⟨c, r, rfl, ?_⟩
+      rcases (by simpa using hw.1.1 : c = '+' ∨ c = '-') with rfl | rfl <;> decide
+  | comment s =>
+    simp only [Tk.WF, Tk.wf] at hw
+    simp only [Tk.text]
+    cases hl : s.toList with
+    | nil => rw [hl] at hw; simp [isCommentLit] at hw
+    | cons c r =>
+      rw [hl] at hw
+      simp only [isCommentLit, Bool.and_eq_true, beq_iff_eq] at hw
+      obtain ⟨rfl, -⟩ := hw
+      exact ⟨_, r, rfl, by decide⟩
+  | id s =>
+    simp only [Tk.WF, Tk.wf, Bool.and_eq_true] at hw
+    simp only [Tk.text]
+    cases hl : s.toList with
+    | nil => rw [hl] at hw; simp [isIdent] at hw
+    | cons c r =>
+      rw [hl] at hw
+      exact ⟨c, r, rfl, isLetter_not_ws (isIdent_cons hw.1).1⟩
+  | nsid s =>
+    simp only [Tk.WF, Tk.wf] at hw
+    simp only [Tk.text]
+    cases hl : s.toList with
+    | nil => rw [hl] at hw; simp [isNsid] at hw
+    | cons c r =>
+      rw [hl] at hw
+      refine ⟨c, r, rfl, ?_⟩
+      simp only [isNsid] at hw
+      split at hw
+      · rename_i hc
+        have : c = '.' := by simpa using hc
+        subst this; decide
+      · simp only [Bool.and_eq_true, List.all_eq_true] at hw
+        obtain ⟨c', r', hj, hc'⟩ := joinDots_head (dotSplit_ne_nil (c :: r)) hw.1
+        rw [joinDots_dotSplit] at hj
+        cases hj; exact isLetter_not_ws hc'
+
+theorem wf_text_ne_nil {t : Tk} (hw : t.WF) : t.text.toList ≠ [] := by
+  obtain ⟨c, r, h, _⟩ := wf_text_head hw
+  rw [h]; simp
+
+theorem wordStop_nil : wordStop [] = true := rfl
+
+theorem wordStop_ws {w : Char} (r : List Char) (hw : isWs w = true) : wordStop (w :: r) = true := by
+  simp only [wordStop]
+  rw [if_neg (by simpa using isWs_ne_dot hw), isWs_not_letterOrDigit hw]; rfl
+
+/-- the end of input stops every token -/
+theorem stops_nil (t : Tk) : t.stops [] = true := by
+  cases t with
+  | kw s =>
+    simp only [Tk.stops]
+    split
+    · rfl
+    · split
+      · rfl
+      · split <;> rfl
+  | _ => rfl
+
+/-- white space stops every token but a comment -/
+theorem stops_ws (t : Tk) {w : Char} (r : List Char) (hw : isWs w = true) (hc : ∀ s, t ≠ .comment s) :
+    t.stops (w :: r) = true := by
+  cases t with
+  | kw s =>
+    simp only [Tk.stops]
+    split
+    · rfl
+    · split
+      · exact wordStop_ws r hw
+      · split
+        · simp [isWs_not_letter hw]
+        · rfl
+  | filepath s => rfl
+  | target s => simp [Tk.stops, isWs_not_lower hw]
+  | comment s => exact absurd rfl (hc s)
+  | id s => exact wordStop_ws r hw
+  | nsid s => exact wordStop_ws r hw
+
+def isNl (c : Char) : Bool := c == '\n' || c == '\r'
+
+theorem stops_comment (s : String) (c : Char) (r : List Char) : (Tk.comment s).stops (c :: r) = isNl c := rfl
+
+/-- a well-formed token whose text is a single `.` is the keyword `.`; what follows it is not a letter -/
+theorem dot_text_stops {b : Tk} {rest : List Char} (hw : b.WF) (ht : b.text.toList = ['.'])
+    (hs : b.stops rest = true) : ∀ x, rest.head? = some x → isLetter x = false := by
+  apply head?_cons_imp
+  rintro d r rfl
+  cases b with
+  | kw s =>
+    simp only [Tk.text] at ht
+    simp only [Tk.stops, ht] at hs
+    rw [if_neg (by decide), if_pos (by decide)] at hs
+    simpa using hs
+  | filepath s => simp only [Tk.text] at ht; simp [Tk.WF, Tk.wf, ht, isPathLit] at hw
+  | target s => simp only [Tk.text] at ht; simp [Tk.WF, Tk.wf, ht, isTargetLit] at hw
+  | comment s => simp only [Tk.text] at ht; simp [Tk.WF, Tk.wf, ht, isCommentLit] at hw
+  | id s => simp only [Tk.text] at ht; simp [Tk.WF, Tk.wf, ht, isIdent] at hw; exact absurd hw.1 (by decide)
+  | nsid s => simp only [Tk.text] at ht; simp [Tk.WF, Tk.wf, ht, isNsid, dotSplit, isIdent] at hw
+
+theorem wordStop_append {c : Char} {r rest : List Char} (h : wordStop (c :: r) = true)
+    (hdot : c = '.' → r = [] → ∀ x, rest.head? = some x → isLetter x = false) :
+    wordStop (c :: r ++ rest) = true := by
+  simp only [wordStop, List.cons_append] at h ⊢
+  split
+  · rename_i hc
+    rw [if_pos hc] at h
+    cases r with
+    | cons d r' => exact h
+    | nil =>
+      simp only [List.nil_append]
+      cases rest with
+      | nil => rfl
+      | cons x rest' =>
+        have := hdot (by simpa using hc) rfl x rfl
+        simp [this]
+  · rename_i hc
+    rw [if_neg hc] at h
+    exact h
+
+/-- **Gluing**: if `b` may directly follow `a` (judged on the text of `b` alone) and `b` is itself followed by
+    a safe continuation, then the whole continuation is safe for `a`. -/
+theorem stops_append {a b : Tk} {rest : List Char} (hw : b.WF) (h : a.stops b.text.toList = true)
+    (hb : b.stops rest = true) : a.stops (b.text.toList ++ rest) = true := by
+  obtain ⟨c, r, hbt, _⟩ := wf_text_head hw
+  have hword : wordStop (c :: r) = true → wordStop (c :: r ++ rest) = true := by
+    intro h'
+    apply wordStop_append h'
+    rintro rfl rfl
+    exact dot_text_stops hw hbt hb
+  rw [hbt] at h ⊢
+  cases a with
+  | kw s =>
+    simp only [Tk.stops] at h ⊢
+    split
+    · rfl
+    · rename_i c' r' hs
+      simp only [hs] at h
+      split
+      · rename_i hl; rw [if_pos hl] at h; exact hword h
+      · rename_i hl
+        rw [if_neg hl] at h
+        split
+        · rename_i hd; rw [if_pos hd] at h; exact h
+        · rfl
+  | filepath s => rfl
+  | target s => exact h
+  | comment s => exact h
+  | id s => exact hword h
+  | nsid s => exact hword h
+
+/-! ## 2. rendering a token sequence with an arbitrary layout -/
+
+/-- the layout seen from the next token on -/
+def shift (s : Nat → List Char) : Nat → List Char := fun i => s (i+1)
+
+/-- the token texts, the `i`-th one followed by the run `s i` -/
+def renderFrom : (Nat → List Char) → List Tk → List Char
+  | _, [] => []
+  | s, t :: ts => t.text.toList ++ (s 0 ++ renderFrom (shift s) ts)
+
+/-- **Canonical renderer.** `sep 0` (leading white space, may be empty), then for `i = 0, 1, …` the text of
+    `tks[i]` followed by the run `sep (i+1)`. -/
+def renderTks (sep : Nat → List Char) (tks : List Tk) : String :=
+  String.ofList (sep 0 ++ renderFrom (shift sep) tks)
+
+/-- must `a` and `b` be separated by white space? Decidable; looks only at the kind of `a` and the first two
+    characters of `b`: punctuation, `@import`, `->` and file paths may be followed by anything; a word must not
+    be followed by a letter/digit/`_` nor by `.x`; `.` not by a letter; a target flag not by a lower-case
+    letter; a comment always needs (a line end). -/
+def needsSpace (a b : Tk) : Bool := !a.stops b.text.toList
+
+/-- is `run` an admissible separator after `t`, when `next` is the following token (if any)?
+    `run` is white space; if it is empty, `t` and `next` may be glued (`needsSpace`); if `t` is a comment, a
+    non-empty `run` starts with a line end. -/
+def sepOK (t : Tk) (next : Option Tk) (run : List Char) : Bool :=
+  run.all isWs &&
+  match run with
+  | [] => (match next with
+    | none => true
+    | some b => !needsSpace t b)
+  | c :: _ => (match t with
+    | .comment _ => isNl c
+    | _ => true)
+
+def fitsFrom : (Nat → List Char) → List Tk → Bool
+  | _, [] => true
+  | s, t :: ts => sepOK t ts.head? (s 0) && fitsFrom (shift s) ts
+
+/-- **Admissible layouts** of a token sequence: `sep 0` is white space and for every `i`, `sep (i+1)` is an
+    admissible separator between `tks[i]` and `tks[i+1]` (`sepOK`; see `layout_iff`). -/
+def Layout (sep : Nat → List Char) (tks : List Tk) : Prop :=
+  (sep 0).all isWs = true ∧ fitsFrom (shift sep) tks = true
+
+instance (sep : Nat → List Char) (tks : List Tk) : Decidable (Layout sep tks) := by
+  unfold Layout; infer_instance
+
+theorem fitsFrom_iff (s : Nat → List Char) (tks : List Tk) :
+    fitsFrom s tks = true ↔ ∀ i (h : i < tks.length), sepOK tks[i] tks[i+1]? (s i) = true := by
+  induction tks generalizing s with
+  | nil => simp [fitsFrom]
+  | cons t ts ih =>
+    simp only [fitsFrom, Bool.and_eq_true, ih]
+    constructor
+    · rintro ⟨h0, h1⟩ i hi
+      cases i with
+      | zero => simpa [List.head?_eq_getElem?] using h0
+      | succ j =>
+        have := h1 j (by simpa using hi)
+        simpa [shift] using this
+    · intro h
+      refine ⟨?_, ?_⟩
+      · have := h 0 (by simp)
+        simpa [List.head?_eq_getElem?] using this
+      · intro j hj
+        have := h (j+1) (by simpa using hj)
+        simpa [shift] using this
+
+/-- the layout condition, index by index -/
+theorem layout_iff (sep : Nat → List Char) (tks : List Tk) :
+    Layout sep tks ↔ (∀ x ∈ sep 0, isWs x = true) ∧
+      ∀ i (h : i < tks.length), sepOK tks[i] tks[i+1]? (sep (i+1)) = true := by
+  simp only [Layout, fitsFrom_iff, List.all_eq_true, shift]
+
+/-- the strict layouts: every token is followed by a non-empty white-space run, which after a comment starts
+    with a line end -/
+def Spaced (sep : Nat → List Char) (tks : List Tk) : Prop :=
+  (∀ x ∈ sep 0, isWs x = true) ∧
+  ∀ i (h : i < tks.length), sep (i+1) ≠ [] ∧ (∀ x ∈ sep (i+1), isWs x = true) ∧
+    ∀ c, tks[i] = .comment c → ∀ x, (sep (i+1)).head? = some x → isNl x = true
+
+theorem Spaced.layout {sep : Nat → List Char} {tks : List Tk} (h : Spaced sep tks) : Layout sep tks := by
+  rw [layout_iff]
+  refine ⟨h.1, ?_⟩
+  intro i hi
+  obtain ⟨h1, h2, h3⟩ := h.2 i hi
+  simp only [sepOK, Bool.and_eq_true, List.all_eq_true]
+  refine ⟨h2, ?_⟩
+  cases hs : sep (i+1) with
+  | nil => exact absurd hs h1
+  | cons c r =>
+    simp only []
+    split
+    · rename_i s ht
+      exact h3 s ht c (by rw [hs]; rfl)
+    · rfl
+
+/-- the same white space everywhere (starting with a line end) is admissible for every token sequence -/
+theorem Spaced.const (run : List Char) (c : Char) (r : List Char) (hrun : run = c :: r) (hc : isNl c = true)
+    (hws : ∀ x ∈ run, isWs x = true) (lead : List Char) (hlead : ∀ x ∈ lead, isWs x = true) (tks : List Tk) :
+    Spaced (fun i => if i = 0 then lead else run) tks := by
+  refine ⟨by simpa using hlead, ?_⟩
+  intro i hi
+  simp only [Nat.add_one_ne_zero, if_false]
+  refine ⟨by rw [hrun]; simp, hws, ?_⟩
+  intro _ _ x hx
+  rw [hrun] at hx; simp at hx; subst hx; exact hc
+
+/-! ### the scan of a rendering -/
+
+def wsPiece (run : List Char) : List Piece :=
+  match run with
+  | [] => []
+  | c :: r => [.ws (c :: r)]
+
+/-- the pieces the lexer will find in `renderFrom s tks` -/
+def piecesFrom : (Nat → List Char) → List Tk → List Piece
+  | _, [] => []
+  | s, t :: ts => .tok t t.text.toList :: (wsPiece (s 0) ++ piecesFrom (shift s) ts)
+
+theorem renderFrom_head (s : Nat → List Char) (tks : List Tk) (hwf : ∀ t ∈ tks, t.WF) :
+    ∀ x, (renderFrom s tks).head? = some x → isWs x = false := by
+  intro x hx
+  cases tks with
+  | nil => simp [renderFrom] at hx
+  | cons t ts =>
+    obtain ⟨c, r, ht, hc⟩ := wf_text_head (hwf t (by simp))
+    simp [renderFrom, ht] at hx
+    subst hx; exact hc
+
+/-- an admissible layout puts a safe continuation after every token -/
+theorem fits_stops (s : Nat → List Char) (t : Tk) (ts : List Tk) (hwf : ∀ x ∈ t :: ts, x.WF)
+    (hfit : fitsFrom s (t :: ts) = true) : t.stops (s 0 ++ renderFrom (shift s) ts) = true := by
+  induction ts generalizing s t with
+  | nil =>
+    simp only [fitsFrom, List.head?_nil, Bool.and_true, sepOK, Bool.and_eq_true, List.all_eq_true] at hfit
+    simp only [renderFrom, List.append_nil]
+    cases hs : s 0 with
+    | nil => exact stops_nil t
+    | cons c r =>
+      rw [hs] at hfit
+      obtain ⟨h1, h2⟩ := hfit
+      cases t with
+      | comment x => exact h2
+      | _ => exact stops_ws _ r (h1 c (by simp)) (by intro x hx; cases hx)
+  | cons b ts' ih =>
+    have hfit' : fitsFrom (shift s) (b :: ts') = true := by
+      simp only [fitsFrom, Bool.and_eq_true] at hfit ⊢; exact hfit.2
+    have hb := ih (shift s) b (fun x hx => hwf x (List.mem_cons_of_mem _ hx)) hfit'
+    simp only [fitsFrom, List.head?_cons, Bool.and_eq_true, sepOK, List.all_eq_true] at hfit
+    obtain ⟨⟨h1, h2⟩, -⟩ := hfit
+    cases hs : s 0 with
+    | nil =>
+      rw [hs] at h2
+      simp only [needsSpace, Bool.not_not] at h2
+      simp only [List.nil_append, renderFrom]
+      exact stops_append (hwf b (by simp)) h2 hb
+    | cons c r =>
+      rw [hs] at h1 h2
+      cases t with
+      | comment x => exact h2
+      | _ => exact stops_ws _ _ (h1 c (by simp)) (by intro x hx; cases hx)
+
+theorem scan_wsPiece (run cs : List Char) (hws : ∀ x ∈ run, isWs x = true)
+    (hcs : ∀ x, cs.head? = some x → isWs x = false) :
+    scan (run ++ cs) = (scan cs).map (wsPiece run ++ ·) := by
+  cases run with
+  | nil => simp [wsPiece]
+  | cons c r =>
+    rw [scan_ws_run (by simp) hws hcs]
+    simp [wsPiece]
+
+/-- **The scan of a rendering**: the lexer finds exactly the written tokens and the written white-space runs. -/
+theorem scan_renderFrom (s : Nat → List Char) (tks : List Tk) (hwf : ∀ t ∈ tks, t.WF)
+    (hfit : fitsFrom s tks = true) : scan (renderFrom s tks) = some (piecesFrom s tks) := by
+  induction tks generalizing s with
+  | nil => rfl
+  | cons t ts ih =>
+    have hw := hwf t (by simp)
+    have hstop := fits_stops s t ts hwf hfit
+    have hne : renderFrom s (t :: ts) ≠ [] := by
+      simp only [renderFrom]
+      intro h
+      exact wf_text_ne_nil hw (List.append_eq_nil_iff.mp h).1
+    have hfit' : fitsFrom (shift s) ts = true := by
+      simp only [fitsFrom, Bool.and_eq_true] at hfit; exact hfit.2
+    have hws : ∀ x ∈ s 0, isWs x = true := by
+      simp only [fitsFrom, sepOK, Bool.and_eq_true, List.all_eq_true] at hfit; exact hfit.1.1
+    have hwf' : ∀ x ∈ ts, x.WF := fun x hx => hwf x (List.mem_cons_of_mem _ hx)
+    rw [scan_cons hne]
+    simp only [renderFrom]
+    rw [lexOne_wf t _ hw hstop]
+    simp only [List.take_left' rfl, List.drop_left' rfl]
+    rw [scan_wsPiece _ _ hws (renderFrom_head _ _ hwf'), ih (shift s) hwf' hfit']
+    simp [piecesFrom]
+
 end Pydjinni.Front
